@@ -51,30 +51,6 @@ theorem firstArg?_some {v first : Expr} (h : firstArg? v = some (some first)) :
     | _ => simp [firstArg?] at h
   | _ => simp [firstArg?] at h
 
-theorem firstArg?_none_headable {st : SStack} {v : Expr} {m : String} (h : firstArg? v = Option.none)
-    (hm : (!(opNames.contains m) || builtinOps.contains m) = true) : headable st (.attr v m) := by
-  simp only [headable]
-  constructor
-  · cases v with
-    | call f args k1 k2 =>
-      cases f with
-      | name n =>
-        simp only [firstArg?] at h
-        by_cases hn : n = "First"
-        · subst hn; cases args <;> simp at h
-        · simp only [isFirstCall]
-          split
-          · rename_i heq; cases heq; exact absurd rfl hn
-          · rfl
-      | _ => simp [isFirstCall]
-    | _ => simp [isFirstCall]
-  · intro ho
-    simp only [Bool.or_eq_true, Bool.not_eq_true'] at hm
-    rcases hm with hm | hm
-    · have : m ∉ opNames := by simpa using hm
-      exact absurd ho this
-    · simpa using hm
-
 theorem opCall?_some {p : Expr} {n : String} {pargs : List Expr} (h : opCall? p = some (n, pargs)) :
     ∃ k1 k2, p = .call (.name n) pargs k1 k2 := by
   cases p with
@@ -209,9 +185,21 @@ theorem simpCk_sound (hw : WorldOK w) : ∀ fuel : Nat,
               · simp only [pure, Except.pure, Except.ok.injEq, Prod.mk.injEq] at h
                 obtain ⟨rfl, _⟩ := h
                 exact sem_attr hw a hsv
-            · simp only [pure, Except.pure, Except.ok.injEq, Prod.mk.injEq] at h
-              obtain ⟨rfl, _⟩ := h
-              exact sem_attr hw a hsv
+            · cases hfa2 : firstArg? v' with
+              | some o =>
+                cases o with
+                | some first =>
+                  simp only [hfa2] at h
+                  split at h
+                  · rename_i hguard
+                    obtain ⟨rest, k1, k2, rfl⟩ := firstArg?_some hfa2
+                    exact sem_attr_first hw first rest k1 k2 a (argName c1) e' hsv hguard (ihS _ _ _ _ _ h)
+                  · cases h
+                | none => simp [hfa2] at h
+              | none =>
+                simp only [hfa2, pure, Except.pure, Except.ok.injEq, Prod.mk.injEq] at h
+                obtain ⟨rfl, _⟩ := h
+                exact sem_attr hw a hsv
       | sub v s =>
         simp only [simpCk] at h
         cases hv : simpCk fuel st c v with
@@ -303,15 +291,16 @@ theorem simpCk_sound (hw : WorldOK w) : ∀ fuel : Nat,
             · exact hgen h
       | call f args kwn kwv =>
         -- the generic continuation
-        have hgen : ∀ (P : Prop) [Decidable P], (do
-              let __x ← simpCk fuel st c f
+        have hgen0 : ∀ (head : Except Err (Expr × Nat)) (P : Prop) [Decidable P], (do
+              let __x ← head
               let __x_1 ← simpLCk fuel st __x.snd args
               let __x_2 ← simpLCk fuel st __x_1.snd kwv
               if P then pure (Expr.call __x.fst __x_1.fst kwn __x_2.fst, __x_2.snd)
               else Except.error (sideErr "a substituted name in callee position")) = .ok (e', c') →
-            (P → headable st f) → Sem w st (.call f args kwn kwv) e' := by
-          intro P _ hg hh
-          cases hf : simpCk fuel st c f with
+            (∀ f' c1, head = .ok (f', c1) → P → ∀ envM env, EnvRel w st envM env → HeadSem w envM env f f') →
+            Sem w st (.call f args kwn kwv) e' := by
+          intro head P _ hg hh
+          cases hf : head with
           | error x => simp [hf, bind, Except.bind] at hg
           | ok r =>
             obtain ⟨f', c1⟩ := r
@@ -329,8 +318,17 @@ theorem simpCk_sound (hw : WorldOK w) : ∀ fuel : Nat,
                 by_cases hP : P
                 · simp only [hP, if_true, pure, Except.pure, Except.ok.injEq, Prod.mk.injEq] at hg
                   obtain ⟨rfl, _⟩ := hg
-                  exact sem_call_generic hw kwn (ihS _ _ _ _ _ hf) (hh hP) (ihL _ _ _ _ _ ha).1 (ihL _ _ _ _ _ hk).1
+                  exact sem_call_head hw kwn (hh _ _ hf hP) (ihL _ _ _ _ _ ha).1 (ihL _ _ _ _ _ hk).1
                 · simp [hP] at hg
+        have hgen : ∀ (P : Prop) [Decidable P], (do
+              let __x ← simpCk fuel st c f
+              let __x_1 ← simpLCk fuel st __x.snd args
+              let __x_2 ← simpLCk fuel st __x_1.snd kwv
+              if P then pure (Expr.call __x.fst __x_1.fst kwn __x_2.fst, __x_2.snd)
+              else Except.error (sideErr "a substituted name in callee position")) = .ok (e', c') →
+            (P → headable st f) → Sem w st (.call f args kwn kwv) e' := by
+          intro P _ hg hh
+          exact hgen0 _ P hg (fun f' c1 hf hP => (ihS _ _ _ _ _ hf).head (hh hP))
         cases f with
         | lam ps body =>
           simp only [simpCk] at h
@@ -374,7 +372,34 @@ theorem simpCk_sound (hw : WorldOK w) : ∀ fuel : Nat,
             | none => simp [hfa] at h
           | none =>
             simp only [hfa] at h
-            exact hgen _ h (fun hm => firstArg?_none_headable hfa hm)
+            refine hgen0 _ _ h ?_
+            intro f' c1 hf hm envM env hr
+            cases hv : simpCk fuel st c v with
+            | error x => simp [hv, bind, Except.bind] at hf
+            | ok r =>
+              obtain ⟨v', c0⟩ := r
+              simp only [hv, bind, Except.bind] at hf
+              have hsv := ihS _ _ _ _ _ hv
+              have hm' : m ∈ opNames → m ∈ builtinOps := by
+                intro h1
+                simp only [Bool.or_eq_true, Bool.not_eq_true', List.contains_eq_mem, decide_eq_false_iff_not,
+                  decide_eq_true_eq] at hm
+                rcases hm with h2 | h2
+                · exact absurd h1 h2
+                · exact h2
+              split at hf
+              · rename_i ks vs
+                split at hf
+                · rename_i r hd
+                  simp only [pure, Except.pure, Except.ok.injEq, Prod.mk.injEq] at hf
+                  obtain ⟨rfl, _⟩ := hf
+                  exact headSem_attr_dict m _ hsv hm' hr
+                · simp only [pure, Except.pure, Except.ok.injEq, Prod.mk.injEq] at hf
+                  obtain ⟨rfl, _⟩ := hf
+                  exact headSem_attr hw m hsv hr
+              · simp only [pure, Except.pure, Except.ok.injEq, Prod.mk.injEq] at hf
+                obtain ⟨rfl, _⟩ := hf
+                exact headSem_attr hw m hsv hr
         | name n =>
           simp only [simpCk] at h
           split at h
